@@ -212,7 +212,20 @@ Fixpoint owns (t : ty) : bool :=
    of `&self`) *)
 Definition e4 : bool := forallb (fun f => negb (fn_closure_escapes f)) fns.
 
-Definition wf_data_known : bool := e1 && e2 && e3.             (* everything but the known finding F5 *)
+(* E5: a collection that caches its lock list (and the result of the duplicate check) at construction — boxed, ref — never
+   gives exclusive access to its members: no AsMut / DerefMut / BorrowMut / IndexMut / Extend / LockableGetMut impl, no
+   iteration by `&mut`, no safe public method taking `&mut self` (the destructor aside).  Through such access safe code
+   could replace a member behind the cached list: the guard would then hand out data of a lock that was never acquired,
+   or the same lock twice. *)
+Definition cache_types : list string := ["BoxedLockCollection"; "RefLockCollection"].
+Definition mut_traits : list string :=
+  ["AsMut"; "DerefMut"; "BorrowMut"; "IndexMut"; "Extend"; "LockableGetMut"; "IntoIterator&mut"].
+Definition e5 : bool :=
+  forallb (fun c => forallb (fun t => negb (has_impl c t)) mut_traits &&
+                    forallb (fun f => negb (String.eqb (fn_owner f) c && safe_public f && fn_mut_self f &&
+                                            negb (String.eqb (fn_trait f) "Drop"))) fns) cache_types.
+
+Definition wf_data_known : bool := e1 && e2 && e3 && e5.       (* everything but the known finding F5 *)
 Definition wf_data : bool := wf_data_known && e4.
 
 (* ---------------------------------------------------------------- a grid of concrete types, for counterexample search *)
